@@ -481,13 +481,14 @@ func (sc *SubCache[EntityT, ExcerptT, CacheT]) add(e EntityT) (CacheT, error) {
 	sc.lru.Add(e.Id())
 	sc.mu.Unlock()
 
-	sc.evictIfNeeded()
-
-	// force the write of the excerpt
+	// force the write of the excerpt, before making room: the new entity can be the one that
+	// is evicted, and an entity that is stored must be listed
 	err := sc.entityUpdated(e.Id())
 	if err != nil {
 		return *new(CacheT), err
 	}
+
+	sc.evictIfNeeded()
 
 	return cached, nil
 }
